@@ -440,6 +440,38 @@ def run(ctx):
     runsim.fault_run_block(ctx, _r, 2 if ctx.quick() else 12)
     runsim.adaptive_steps_block(ctx, _r, 2 if ctx.quick() else 12, faults=True)
 
+    # an attempt that overflows (non-finite stage slopes) must not poison the integrator object: the retries of the same call, and in
+    # any case a later call with a small step, continue from the recorded prefix (the stage storage is shared between attempts)
+    for name in ["RK45CKSolver", "DOPRI45", "RK8713MSolver", "HeunEulerSolver"]:      # adaptive methods: they can shorten the step
+        for sign in (1.0, -1.0):
+            inp = dict(kind="overflowing-attempt-then-resume", method=name, direction=sign, dt0=1.0)
+            ode = de.OdeSystem(lambda t, y, sign=sign: -sign * y ** 3, y0=np.array([10.0]), t=(0.0, sign * 0.5), dt=1.0, rtol=1e-8, atol=1e-10)
+            ode.set_method(getattr(I, name))
+            first = None
+            try:
+                with np.errstate(all="ignore"):
+                    ode.integrate()
+            except de.exception_types.FailedIntegration as e:
+                first = type(e.__cause__).__name__ if e.__cause__ is not None else "FailedIntegration"
+            except Exception as e:
+                first = "other:" + type(e).__name__
+            resumed = None
+            if first is not None or not np.all(np.isfinite(np.array(ode.y))):
+                try:
+                    ode.dt = 1e-3
+                    with np.errstate(all="ignore"):
+                        ode.integrate()
+                except Exception as e:
+                    resumed = type(e).__name__
+            ys = np.array(ode.y)[:, 0]
+            ts = np.array(ode.t)
+            finite = bool(np.all(np.isfinite(ys)))
+            reached = abs(float(ts[-1]) - sign * 0.5) < 1e-9
+            err = abs(float(ys[-1]) - 10.0 / np.sqrt(1 + 200.0 * abs(float(ts[-1])))) if finite else float("inf")
+            ctx.oracle("resume-after-overflowing-attempt", finite and reached and err <= 1e-3 and resumed is None,
+                       dict(inp, first_call=first, resumed_call=resumed, t_end=float(ts[-1]), error=err), key="integrator-poisoned-by-non-finite-attempt",
+                       what="after an overflowing first attempt (first call: %r) the resumed call with dt = 1e-3 gave %r, t_end = %r, error %.2e" % (first, resumed, float(ts[-1]), err))
+            ctx.count("overflow-then-resume:" + name)
 
 
 def replay(rep):
